@@ -1,5 +1,5 @@
 (* Model of repl.REPL.Run (repl/repl.go): the line-at-a-time state machine around
-   py.Compile(text, "single").  Lines are abstract tokens; [blank] is the empty line; the
+   py.Compile(text, "single").  Lines are abstract tokens; [blank] is the empty line, [white] a line of white space only; the
    compiler's verdict on the accumulated text is the parameter [classify]. *)
 From Coq Require Import List Bool Arith.
 Import ListNotations.
@@ -7,6 +7,10 @@ Import ListNotations.
 Definition line := nat.
 Definition blank : line := 0.
 Definition is_blank (l : line) : bool := Nat.eqb l 0.
+Definition white : line := 1.                      (* a line of white space only *)
+Definition is_white (l : line) : bool := Nat.eqb l 1.
+(* nothing entered: at the primary prompt such a line is dropped before the compiler is asked *)
+Definition ignorable (l : line) : bool := is_blank l || is_white l.
 
 Inductive verdict := Complete | Incomplete | CompileError | Ignored.   (* Ignored: a comment-only text that hits the EOF error *)
 
@@ -26,7 +30,7 @@ Definition run_line (st : rstate) (l : line) : rstate * list event :=
     ({| continuation := true; previous := previous st ++ [l] |}, [])
   else
     let text := previous st ++ [l] in
-    if match previous st with [] => is_blank l | _ => false end then (st, [])
+    if match previous st with [] => ignorable l | _ => false end then (st, [])
     else match classify text with
          | Incomplete => ({| continuation := true; previous := previous st ++ [l] |}, [Prompt true])
          | Complete => (idle, [Prompt false; Exec text])
